@@ -346,4 +346,8 @@ def Template.condition (t : Template) : Expr :=
 def Template.toPolicy (t : Template) (id : String) (env : SlotEnv) : Policy :=
   { id, effect := t.effect, condition := t.condition, env }
 
+/-- what the authorizer computes for a JSON policy: read it (`from_json`), then evaluate the policy it denotes -/
+def jsonPolicyOutcome (j : Json) (id : String) (env : SlotEnv) (req : Request) (es : Entities) : R Outcome :=
+  (toTemplate j).map (fun t => (t.toPolicy id env).outcome req es)
+
 end Cedar.Est
